@@ -588,6 +588,10 @@ def _run_path(interp, reg, c, func, rep, via=None):
     st = interp.st
     if getattr(getattr(c, 'module', None), 'string_alignment', False):
         st.ghost['__align__'] = True      # (pyvc.strings: positions and searches are aligned with known pieces)
+    if getattr(getattr(c, 'module', None), 'weak_splitlines', False):
+        st.ghost['__weak_splitlines__'] = True      # (pyvc.strings: s.splitlines() is some list of strings)
+    if getattr(getattr(c, 'module', None), 'exact_split', False):
+        st.ghost['__exact_split__'] = True      # (pyvc.strings: s.split(c) exact for at most one separator)
     args, ghosts = make_inputs(interp, c, via)
     reg.ghost_env = dict(ghosts)
     # ghost (monitor) variables declared in `modifies`: the function starts in an arbitrary monitor state
